@@ -18,7 +18,7 @@ type world struct {
 	vms []data.VM
 }
 
-func newWorld() *world {
+func newWorld(fresh bool) *world {
 	root := symx.VRoot()
 	symx.VFile(root+"/app/Foo.php", "<?php\nnamespace App;\nclass Foo { public $v = 1; }\n")
 	symx.VFile(root+"/app/Shape.php", "<?php\nnamespace App;\ninterface Shape { }\n")
@@ -29,7 +29,11 @@ func newWorld() *world {
 	w := &world{vms: []data.VM{base}}
 	for t := 0; t < 2; t++ {
 		tv := runtime.NewTempVM(base).(*runtime.TempVM)
-		tv.PrepareParse(bp)
+		// the second temporary VM may be FRESH: nothing parsed through it yet, no parser of its own
+		// (the state in which the hot-reload handler hands it to a request)
+		if t == 0 || !fresh {
+			tv.PrepareParse(bp)
+		}
 		w.vms = append(w.vms, tv)
 	}
 	return w
@@ -75,11 +79,12 @@ func H_autoload() {
 		steps = append(steps, st{symx.Choose("op"+idx[s], 5), symx.Choose("vm"+idx[s], 3), symx.Choose("name"+idx[s], 3)})
 	}
 	probe := st{symx.Choose("pop", 5), 1 + symx.Choose("pvm", 2), symx.Choose("pname", 3)}
+	fresh := symx.Choose("second_vm_fresh", 2) == 1
 	defer symx.VCleanup()
 
 	run := func(keepOthers bool) int {
 		symx.VReset()
-		w := newWorld()
+		w := newWorld(fresh)
 		for _, s := range steps {
 			if !keepOthers && s.vm != 0 && s.vm != probe.vm {
 				continue // a step of the other temporary VM
